@@ -9,6 +9,7 @@ import (
 	"strings"
 
 	beacon "github.com/oasisprotocol/oasis-core/go/beacon/api"
+	"github.com/oasisprotocol/oasis-core/go/common"
 	"github.com/oasisprotocol/oasis-core/go/common/cbor"
 	"github.com/oasisprotocol/oasis-core/go/common/crypto/hash"
 	"github.com/oasisprotocol/oasis-core/go/common/crypto/signature"
@@ -301,27 +302,27 @@ func buildCborGroup() ([]*target, error) {
 	tgs = append(tgs, txT)
 
 	// One target per method body type (decoded directly, plus the stateless validation).
-	body := func(name string, t *target) { tgs = append(tgs, t) }
-	body("", cborTarget("cbor-staking.Transfer", "1 decoded", bodySeeds["staking.Transfer"], 1, func(v *staking.Transfer, o *outcome) string { return v.To.String() }))
-	body("", cborTarget[staking.Burn]("cbor-staking.Burn", "1 decoded", bodySeeds["staking.Burn"], 1, nil))
-	body("", cborTarget("cbor-staking.Escrow", "1 decoded", bodySeeds["staking.AddEscrow"], 1, func(v *staking.Escrow, o *outcome) string { return v.Account.String() }))
-	body("", cborTarget[staking.ReclaimEscrow]("cbor-staking.ReclaimEscrow", "1 decoded", bodySeeds["staking.ReclaimEscrow"], 1, nil))
-	body("", cborTarget("cbor-staking.AmendCommissionSchedule", "1 decoded (+ amendment validated against a fixed schedule)", bodySeeds["staking.AmendCommissionSchedule"], 1,
+	body := func(t *target) { tgs = append(tgs, t) }
+	body(cborTarget("cbor-staking.Transfer", "1 decoded", bodySeeds["staking.Transfer"], 1, func(v *staking.Transfer, o *outcome) string { return v.To.String() }))
+	body(cborTarget[staking.Burn]("cbor-staking.Burn", "1 decoded", bodySeeds["staking.Burn"], 1, nil))
+	body(cborTarget("cbor-staking.Escrow", "1 decoded", bodySeeds["staking.AddEscrow"], 1, func(v *staking.Escrow, o *outcome) string { return v.Account.String() }))
+	body(cborTarget[staking.ReclaimEscrow]("cbor-staking.ReclaimEscrow", "1 decoded", bodySeeds["staking.ReclaimEscrow"], 1, nil))
+	body(cborTarget("cbor-staking.AmendCommissionSchedule", "1 decoded (+ amendment validated against a fixed schedule)", bodySeeds["staking.AmendCommissionSchedule"], 1,
 		func(v *staking.AmendCommissionSchedule, o *outcome) string { return validateBody(v, o) }))
-	body("", cborTarget[staking.Allow]("cbor-staking.Allow", "1 decoded", bodySeeds["staking.Allow"], 1, nil))
-	body("", cborTarget[staking.Withdraw]("cbor-staking.Withdraw", "1 decoded", bodySeeds["staking.Withdraw"], 1, nil))
-	body("", cborTarget[registry.DeregisterEntity]("cbor-registry.DeregisterEntity", "1 decoded", []seed{{"empty-map", cbor.Marshal(registry.DeregisterEntity{})}}, 1, nil))
-	body("", cborTarget[registry.UnfreezeNode]("cbor-registry.UnfreezeNode", "1 decoded", bodySeeds["registry.UnfreezeNode"], 1, nil))
-	body("", cborTarget("cbor-governance.ProposalContent", "1 decoded (+ ValidateBasic)", bodySeeds["governance.SubmitProposal"], 1,
+	body(cborTarget[staking.Allow]("cbor-staking.Allow", "1 decoded", bodySeeds["staking.Allow"], 1, nil))
+	body(cborTarget[staking.Withdraw]("cbor-staking.Withdraw", "1 decoded", bodySeeds["staking.Withdraw"], 1, nil))
+	body(cborTarget[registry.DeregisterEntity]("cbor-registry.DeregisterEntity", "1 decoded", []seed{{"empty-map", cbor.Marshal(registry.DeregisterEntity{})}}, 1, nil))
+	body(cborTarget[registry.UnfreezeNode]("cbor-registry.UnfreezeNode", "1 decoded", bodySeeds["registry.UnfreezeNode"], 1, nil))
+	body(cborTarget("cbor-governance.ProposalContent", "1 decoded (+ ValidateBasic)", bodySeeds["governance.SubmitProposal"], 1,
 		func(v *governance.ProposalContent, o *outcome) string { return validateBody(v, o) }))
-	body("", cborTarget[governance.ProposalVote]("cbor-governance.ProposalVote", "1 decoded", bodySeeds["governance.CastVote"], 1, nil))
-	body("", cborTarget("cbor-roothash.ExecutorCommit", "1 decoded (+ ValidateBasic, Verify of every commitment)", bodySeeds["roothash.ExecutorCommit"], 1,
+	body(cborTarget[governance.ProposalVote]("cbor-governance.ProposalVote", "1 decoded", bodySeeds["governance.CastVote"], 1, nil))
+	body(cborTarget("cbor-roothash.ExecutorCommit", "1 decoded (+ ValidateBasic, Verify of every commitment)", bodySeeds["roothash.ExecutorCommit"], 1,
 		func(v *roothash.ExecutorCommit, o *outcome) string { return validateBody(v, o) }))
-	body("", cborTarget("cbor-roothash.Evidence", "1 decoded (+ ValidateBasic incl. signatures)", bodySeeds["roothash.Evidence"], 1,
+	body(cborTarget("cbor-roothash.Evidence", "1 decoded (+ ValidateBasic incl. signatures)", bodySeeds["roothash.Evidence"], 1,
 		func(v *roothash.Evidence, o *outcome) string { return validateBody(v, o) }))
-	body("", cborTarget[roothash.SubmitMsg]("cbor-roothash.SubmitMsg", "1 decoded", bodySeeds["roothash.SubmitMsg"], 1, nil))
-	body("", cborTarget[beacon.EpochTime]("cbor-beacon.EpochTime", "1 decoded", bodySeeds["beacon.SetEpoch"], 1, nil))
-	body("", cborTarget[[32]byte]("cbor-registry.ProveFreshness", "1 decoded", bodySeeds["registry.ProveFreshness"], 1, nil))
+	body(cborTarget[roothash.SubmitMsg]("cbor-roothash.SubmitMsg", "1 decoded", bodySeeds["roothash.SubmitMsg"], 1, nil))
+	body(cborTarget[beacon.EpochTime]("cbor-beacon.EpochTime", "1 decoded", bodySeeds["beacon.SetEpoch"], 1, nil))
+	body(cborTarget[[32]byte]("cbor-registry.ProveFreshness", "1 decoded", bodySeeds["registry.ProveFreshness"], 1, nil))
 
 	// Descriptors (decode + signature open; full verification lives in the Descriptors group).
 	ent := cborTarget("cbor-entity.SignedEntity", "1 envelope decoded, 3 signature ok + entity decoded", bodySeeds["registry.RegisterEntity"], 3,
@@ -403,6 +404,8 @@ func buildCborGroup() ([]*target, error) {
 			}
 			return fmt.Sprint(err)
 		}))
+	tgs = append(tgs, cborTarget("cbor-common.Namespace", "1 decoded", seedsOf[common.Namespace]("runtime-id", rtID, "keymanager-id", kmID), 1,
+		func(v *common.Namespace, o *outcome) string { return fmt.Sprint(v.IsTest(), v.IsKeyManager(), v.String()) }))
 	tgs = append(tgs, cborTarget[quantity.Quantity]("cbor-quantity.Quantity", "1 decoded", seedsOf[quantity.Quantity]("small", q(5), "zero", q(0), "big", q(1<<63)), 1, nil))
 	return tgs, nil
 }
